@@ -168,3 +168,17 @@ Proof. intros nc k. apply api_unchanged. exact generate_sdmx_o_safe. Qed.
 Theorem validate_impl_frame : forall cs k,
   caller_view (ncaller (length cs)) (run_prefix k (validate_impl cs) (oinit (ncaller (length cs)))) = repeat [] (ncaller (length cs)).
 Proof. intros cs k. apply api_unchanged. intros T. apply validate_impl_safe. Qed.
+
+Lemma validate_vd_o_safe : forall T, safe T validate_vd_o = true.
+Proof. reflexivity. Qed.
+Lemma validate_er_o_safe : forall T, safe T validate_er_o = true.
+Proof. reflexivity. Qed.
+Lemma create_ast_o_safe : forall T, safe T create_ast_o = true.
+Proof. reflexivity. Qed.
+
+Theorem validate_vd_skeleton_frame : forall nc k, caller_view nc (run_prefix k validate_vd_o (oinit nc)) = repeat [] nc.
+Proof. intros nc k. apply api_unchanged. exact validate_vd_o_safe. Qed.
+Theorem validate_er_skeleton_frame : forall nc k, caller_view nc (run_prefix k validate_er_o (oinit nc)) = repeat [] nc.
+Proof. intros nc k. apply api_unchanged. exact validate_er_o_safe. Qed.
+Theorem create_ast_skeleton_frame : forall nc k, caller_view nc (run_prefix k create_ast_o (oinit nc)) = repeat [] nc.
+Proof. intros nc k. apply api_unchanged. exact create_ast_o_safe. Qed.
